@@ -268,7 +268,7 @@ def extra_choices(kind, objs):
         sg = sorted(getattr(objs[0], 'Sigma', None) or [])
         if not sg or not all(isinstance(a, str) and len(a) == 1 for a in sg):
             return WORDS if not hasattr(objs[0], 'Sigma') else ['']
-        return ['', (sg[0] + sg[-1])]
+        return ['', (sg[0] + sg[-1]), sg[0] * 12]      # the last one is longer than any structure of the small objects (and than half the closure limit of 20)
     if kind == 'n':
         return NS
     if kind == 'q0':
